@@ -10,6 +10,9 @@ Require Import Cadence.Proofs.WriterInv.
 Require Import Cadence.Proofs.WriterRun.
 Require Import Cadence.Proofs.WriterThms.
 Require Import Cadence.Proofs.WriterGreedy.
+Require Import Cadence.Model.Stats.
+Require Import Cadence.Model.Sock.
+Require Import Cadence.Proofs.SockFF.
 
 (* an emit writes to the socket only when it must: only if the buffered bytes plus the
    metric plus the terminator do not fit strictly; every whole-line datagram it flushes
@@ -80,6 +83,20 @@ Theorem c19_count_segments : forall c e (segs : list (list str)) (last : list st
     + greedy_count c (map (fun m => length m + length e) last) /\
   Forall (fun x => exists k, x = OOk k) rs.
 Proof. exact datagram_count_segments. Qed.
+
+(* ... and so for the buffered socket sinks themselves (Sock.sc_buffered, listener present): the
+   number of datagrams that carry bytes - those of the final drop included - is exactly what greedy
+   packing of the lines "metric\n" needs for the sink's capacity (512 unless configured) *)
+Theorem c19_socket : forall co queued (ms : list str),
+  let c := match co with Some n => n | None => default_capacity end in
+  Forall (fun m => length m + 1 <= c) ms ->
+  length (filter (fun d => match d with [] => false | _ => true end)
+                 (snd (fst (sc_buffered co queued (map SEmit ms))))) =
+    greedy_count c (map (fun m => length m + 1) ms).
+Proof.
+  intros co queued ms c F. pose proof (sc_buffered_bytes co queued ms F) as H.
+  destruct (sc_buffered co queued (map SEmit ms)) as [[rs dg] st]. cbn [fst snd]. exact (proj2 (proj2 H)).
+Qed.
 
 (* non-vacuity of the count: capacity 8, newline; sizes 4 4 | 8 | 2 (an exact fill in the middle) *)
 Example c19_count_witness :
